@@ -342,3 +342,49 @@ Lemma P36_even : Z.even P36 = true. Proof. reflexivity. Qed.
 Lemma P18_even : Z.even P18 = true. Proof. reflexivity. Qed.
 Lemma P72_sq : P72 = P36 * P36. Proof. reflexivity. Qed.
 Lemma P36_split : P36 = P18 * P18. Proof. reflexivity. Qed.
+
+(* ---------------------------------------------------------------- further interface lemmas *)
+Lemma rfloor_le_rtz_le_rceil : forall n d, 0 < d -> rfloor n d <= rtz n d <= rceil n d.
+Proof.
+  intros n d Hd. rewrite rtz_floor_ceil by assumption. pose proof (rceil_ge_floor n d ltac:(lia)).
+  destruct (0 <=? n); lia.
+Qed.
+Lemma rfloor_add_multiple : forall n k d, d <> 0 -> rfloor (n + k * d) d = rfloor n d + k.
+Proof. intros; unfold rfloor; apply Z.div_add; assumption. Qed.
+Lemma rceil_add_multiple : forall n k d, d <> 0 -> rceil (n + k * d) d = rceil n d + k.
+Proof.
+  intros n k d Hd. unfold rceil. replace (- (n + k * d)) with (- n + (- k) * d) by ring.
+  rewrite Z.div_add by assumption. lia.
+Qed.
+Lemma rtz_nonneg : forall n d, 0 <= n -> 0 < d -> 0 <= rtz n d.
+Proof. intros; unfold rtz; apply Z.quot_pos; lia. Qed.
+Lemma rtz_nonpos : forall n d, n <= 0 -> 0 < d -> rtz n d <= 0.
+Proof. intros n d Hn Hd. destruct (rtz_spec n d Hd) as [_ H]. specialize (H Hn). nia. Qed.
+Lemma rceil_pos_iff : forall n d, 0 < d -> (0 < rceil n d <-> 0 < n).
+Proof. intros n d Hd. pose proof (rceil_spec n d Hd). split; intros; nia. Qed.
+Lemma rfloor_neg_iff : forall n d, 0 < d -> (rfloor n d < 0 <-> n < 0).
+Proof. intros n d Hd. pose proof (rfloor_spec n d Hd). split; intros; nia. Qed.
+Lemma rhe_zero_iff : forall n d, 0 < d -> (rhe n d = 0 <-> 2 * Z.abs n <= d).
+Proof.
+  intros n d Hd. split.
+  - intros E. destruct (rhe_spec n d Hd) as [S _]. rewrite E in S. replace (d * 0 - n) with (- n) in S by ring.
+    rewrite Z.abs_opp in S. exact S.
+  - intros H. symmetry. apply rhe_unique; [assumption| |].
+    + replace (d * 0 - n) with (- n) by ring. rewrite Z.abs_opp. exact H.
+    + reflexivity.
+Qed.
+(* rounding error of each direction, in units of 1/d *)
+Lemma rceil_error : forall n d, 0 < d -> 0 <= d * rceil n d - n < d.
+Proof. intros n d Hd. pose proof (rceil_spec n d Hd). lia. Qed.
+Lemma rfloor_error : forall n d, 0 < d -> 0 <= n - d * rfloor n d < d.
+Proof. intros n d Hd. pose proof (rfloor_spec n d Hd). lia. Qed.
+Lemma rtz_error : forall n d, 0 < d -> Z.abs (n - d * rtz n d) < d.
+Proof.
+  intros n d Hd. destruct (rtz_spec n d Hd) as [A B].
+  destruct (Z.le_ge_cases 0 n) as [H|H].
+  - specialize (A H). rewrite Z.abs_eq by lia. lia.
+  - specialize (B ltac:(lia)). rewrite Z.abs_neq by lia. lia.
+Qed.
+(* ceil >= trunc >= floor ordering between results of the same exact value, e.g. estimate vs execute directions *)
+Lemma rceil_ge_rhe_ge_rfloor : forall n d, 0 < d -> rfloor n d <= rhe n d <= rceil n d.
+Proof. exact rhe_between. Qed.
